@@ -22,6 +22,22 @@ CHECKS = {
             'unknown sub-item types, several syntaxes/PDVs) are decoded by the library and compared.',
             'Trusts vf/refpdu.py (about 300 lines transcribed from PS3.8 9.3 / PS3.7 Annex D, with a '
             'self-test); AE titles compared modulo padding.', 'refpdu', 'DESIGN.md#C02'),
+    'C03': (True, 'exploration',
+            'exhaustive cut-offset enumeration + Hypothesis k-cuts on a simulated transport; metamorphic oracle (any segmentation == one PDU per segment)',
+            'Twelve conversations (both roles) are replayed through the real provider loop under a simulated '
+            'socket/select with every single cut offset, pairs of cuts, one-byte dribble, whole bursts, random '
+            'k-cuts, each with the first segment already waiting or not and segments back-to-back or spaced; '
+            'indications, bytes sent and final state must equal the one-PDU-per-segment delivery.',
+            'Transport modelled as an ordered byte stream (vf/simnet.py); cuts are applied within the bytes the '
+            'peer sends between two local actions.', 'simnet', 'DESIGN.md#C03'),
+    'C05': (True, 'exploration',
+            'bounded-exhaustive history enumeration from state-reaching prefixes + Hypothesis random walks; step-by-step differential against an executable PS3.8 model',
+            'All histories of up to 2 (quick) / 4 (thorough, 2.4M histories) further events from 19 prefixes that '
+            'reach every protocol state, and random walks up to 30 steps, are executed on the real provider loop '
+            'under a deterministic transport/clock and compared after every step with the model: PDUs written, '
+            'indications, transport state, ARTIM, protocol state; plus the four invariants of the statement.',
+            'Trusts vf/ulmodel.py; whole PDUs per segment; depth bound beyond which only sampling.',
+            'simnet+ulmodel', 'DESIGN.md#C05'),
     'C04': (True, 'exploration',
             'exhaustive cell enumeration (13 states x 19 events x role x timer x slot variants) against a transcribed Table 9-10 + Hypothesis PDU contents',
             'Every one of the 247 cells is executed on a real provider object (state set directly, no thread) '
